@@ -1,6 +1,7 @@
 import RxnModel.Proofs.TimersRun
 import RxnModel.Proofs.TimersOpRefine
 import RxnModel.Proofs.TimersCompose
+import RxnModel.Proofs.TimersPartial
 /-!
 # C10 — event-time timers fire exactly once, in order, and survive recovery
 
@@ -212,6 +213,33 @@ theorem preepoch_counterexample :
   intro h
   have := h.2.2.2.1.1.length_eq
   simp at this
+
+/-- **A consumer that stops early loses nothing and repeats nothing.** `fireLoop comp k` is the iterator of
+`AdvanceWatermark` whose consumer stops after `k` timers (`Operator.handleWatermark` returns from inside the loop when a
+batch fails; the code deletes a timer before it yields it). Iterating again for the same composite watermark and draining
+ends in the store of, and hands out together with the first `k` exactly the timers of, one drained `AdvanceWatermark` —
+in its order, each once — for every `k`, every cache size and every store satisfying the store invariant. (That a repeated
+report of the same sender and watermark yields the same composite watermark is `Ups.report` on an unchanged map; it is
+observed by the `advk` operation of the correspondence, not proved here.) -/
+theorem partial_then_drain (r : Registry) (sender : String) (wm : Int) (k : Nat) (hs : SInv r.store) :
+    let c := (r.ups.report sender wm).2
+    let p := fireLoop c k r.store
+    let d := fireLoop c (p.1.db.length + 1) p.1
+    (r.advance sender wm).1.store = d.1 ∧ (r.advance sender wm).2 = p.2 ++ d.2 := by
+  intro c p d
+  have h : fireLoop c (r.store.db.length + 1) r.store = (d.1, p.2 ++ d.2) := fireLoop_partial_then_drain c k r.store hs
+  simp only [Registry.advance]
+  constructor
+  · show (fireLoop c (r.store.db.length + 1) r.store).1 = d.1
+    rw [h]
+  · show (fireLoop c (r.store.db.length + 1) r.store).2 = p.2 ++ d.2
+    rw [h]
+
+/-- the two pieces on a concrete store: three pending timers, the consumer takes one, the second iteration the other two -/
+example :
+    let s := ((Registry.new (Store.new [] 1 0 1 30) ["sr0"]).run [.set [0x6b] 1, .set [0x6b] 2, .set [0x6b] 5]).1.store
+    (fireLoop 100 1 s).2 = [([0x6b], 1)] ∧ (fireLoop 100 4 (fireLoop 100 1 s).1).2 = [([0x6b], 2), ([0x6b], 5)] := by
+  decide
 
 /-! non-vacuity and the D11 regression witness (2-entry cache: put 1, 2, 5; fire 1; put 9; the rest must fire as 2, 5, 9) -/
 
